@@ -160,6 +160,20 @@ def zone_sensors(gwy) -> dict:
     return out
 
 
+def role_holders(gwy) -> dict:
+    """(zone sensor | DHW sensor / hot-water valve / heating valve | appliance control) -> the device holding that role."""
+    out = {}
+    for tcs in gwy.systems:
+        for z in getattr(tcs, "zones", []):
+            out[f"{z.id}/sensor"] = getattr(getattr(z, "sensor", None), "id", None)
+        dhw = getattr(tcs, "dhw", None)
+        if dhw is not None:
+            for role in ("sensor", "hotwater_valve", "heating_valve"):
+                out[f"{dhw.id}/{role}"] = getattr(getattr(dhw, role, None), "id", None)
+        out[f"{tcs.id}/appliance_control"] = getattr(getattr(tcs, "appliance_control", None), "id", None)
+    return out
+
+
 def places(gwy) -> dict:
     """device id -> every place the reported schema lists it in (zone sensor / actuator, DHW part, appliance control)."""
     out: dict[str, set] = {}
@@ -184,6 +198,7 @@ def run_history(t: E.Tally, lines, rep, label, eav, max_zones, at: set[int]) -> 
     w, gwy = GC.new_world(eavesdrop=eav, max_zones=max_zones)
     try:
         par = {}
+        held: dict = {}
         sens: dict = {}
         for k, ln in enumerate(lines):
             nexc, nlog = len(w.loop.exc), len(logcap.CAP.records)
@@ -197,6 +212,16 @@ def run_history(t: E.Tally, lines, rep, label, eav, max_zones, at: set[int]) -> 
                     z, a, b = swapped[0]
                     t.bad("C15:zone-sensor-replaced-silently", f"{label} line {k} {ln[2][:60]!r}: the sensor of {z} changed from {a} to {b} and no inconsistency was reported", rep)
             sens = zs
+            # a role that HAD a holder gets another one (also by way of 'nobody' in between: an empty reply is not an un-binding, the
+            # old holder is still attached) - only ever with the inconsistency reported
+            rh = role_holders(gwy)
+            for role, dev in rh.items():
+                if dev is not None and held.get(role) not in (None, dev):
+                    reported = any("Inconsistent" in str(type(c.get("exception")).__name__) for c in w.loop.exc[nexc:]) or any("Inconsistent" in r[1] for r in logcap.CAP.records[nlog:])
+                    if not reported:
+                        t.bad("C15:role-holder-replaced-silently:" + role.rsplit("/", 1)[-1], f"{label} line {k} {ln[2][:60]!r}: {role} went from {held[role]} to {dev} and no inconsistency was reported", rep)
+                if dev is not None:
+                    held[role] = dev
             moved = [(d, par[d], p) for d, p in now.items() if par.get(d) is not None and p != par[d]]
             if moved:
                 reported = any("Inconsistent" in str(type(c.get("exception")).__name__) for c in w.loop.exc[nexc:]) or any("Inconsistent" in r[1] for r in logcap.CAP.records[nlog:])
